@@ -310,7 +310,9 @@ Proof. split; vm_compute; reflexivity. Qed.
 End FarmC12.
 
 (** ** oracle.  [e] = the service module's request contexts (id -> state, batch counter) as the
-    chain in question knows them ([eA] on the exporting chain, [eB] on the importing one). *)
+    chain in question knows them ([eA] on the exporting chain, [eB] on the importing one).  The model carries
+    a switch for the repair "oracle InitGenesis keeps the order of a feed's exported values"; the tree under
+    check has it ([import true]); [import false] is the code as it was. *)
 Module OracleC12.
 Import Genesis.Oracle Genesis.OracleProofs.
 
@@ -321,9 +323,9 @@ Print Assumptions oracle_export_validates.
 
 (** import_total FAILS for a reachable state: InitGenesis panics when the new chain's service module does not
     know the feed's request context — which happens whenever the service genesis exported with it could not
-    be imported, i.e. whenever a feed is running (known finding oracle-import-panics/request-context-missing-...) *)
+    be imported, i.e. whenever a feed is running (known finding oracle-import-panics.request-context-missing-...) *)
 Theorem oracle_import_total_refuted :
-  exists eA eB s, invb s = true /\ validate (export eA s) = true /\ import eB (export eA s) = None.
+  exists eA eB s, invb s = true /\ validate (export eA s) = true /\ import true eB (export eA s) = None.
 Proof. exact oracle_import_total_refuted_lemma. Qed.
 Print Assumptions oracle_import_total_refuted.
 
@@ -331,31 +333,44 @@ Print Assumptions oracle_import_total_refuted.
 Theorem oracle_import_total_partial :
   forall (eA eB : env) (s : state),
     invb s = true -> (forall f, In f (feeds s) -> has (o_ctx (snd f)) eB = true) ->
-    import eB (export eA s) <> None.
-Proof. exact oracle_import_total_partial_reachable_lemma. Qed.
+    import true eB (export eA s) <> None.
+Proof. exact (oracle_import_total_partial_reachable_lemma true). Qed.
 Print Assumptions oracle_import_total_partial.
 
-(** export . import . export = export FAILS: InitGenesis stores every exported value of a feed under
-    the same key (the context's current batch counter), so one value survives — the oldest
-    (known finding oracle-feed-value-history-lost-on-import) *)
-Theorem oracle_export_fixpoint_refuted :
-  exists e s s', invb s = true /\ import e (export e s) = Some s' /\ export e s' <> export e s.
+(** the code as it was: InitGenesis stored every exported value of a feed under the same key, so one
+    value survived — the oldest (fixed; witness = corpus/C12/oracle-value-history-lost.jsonl) *)
+Theorem oracle_export_fixpoint_refuted_before_fix :
+  exists e s s', invb s = true /\ import false e (export e s) = Some s' /\ export e s' <> export e s.
 Proof. exact oracle_export_fixpoint_refuted_lemma. Qed.
-Print Assumptions oracle_export_fixpoint_refuted.
+Print Assumptions oracle_export_fixpoint_refuted_before_fix.
 
-Theorem oracle_queries_preserved_refuted :
-  exists e s s', invb s = true /\ import e (export e s) = Some s'
+Theorem oracle_queries_preserved_refuted_before_fix :
+  exists e s s', invb s = true /\ import false e (export e s) = Some s'
                  /\ values_of s 0 = [(4, 1700000020); (3, 1700000010)] /\ values_of s' 0 = [(3, 1700000010)].
 Proof. exact oracle_queries_preserved_refuted_lemma. Qed.
-Print Assumptions oracle_queries_preserved_refuted.
+Print Assumptions oracle_queries_preserved_refuted_before_fix.
 
-(** ... what does hold: the feeds themselves are preserved *)
-Theorem oracle_queries_preserved_partial :
-  forall (eA eB : env) (s s' : state),
-    invb s = true -> (forall f, In f (feeds s) -> has (o_ctx (snd f)) eA = true) ->
-    import eB (export eA s) = Some s' -> feeds s' = feeds s.
-Proof. exact oracle_feeds_preserved_lemma. Qed.
-Print Assumptions oracle_queries_preserved_partial.
+(** the repaired code, on a chain that knows the feeds' request contexts: export . import . export = export *)
+Theorem oracle_export_fixpoint :
+  forall (e : env) (s : state),
+    invb s = true -> (forall f, In f (feeds s) -> has (o_ctx (snd f)) e = true) ->
+    exists s', import true e (export e s) = Some s' /\ export e s' = export e s.
+Proof. exact oracle_export_fixpoint_lemma. Qed.
+Print Assumptions oracle_export_fixpoint.
+
+(** ... and the feeds and every feed's value history (newest first) read the same *)
+Theorem oracle_queries_preserved :
+  forall (e : env) (s s' : state),
+    invb s = true -> (forall f, In f (feeds s) -> has (o_ctx (snd f)) e = true) ->
+    import true e (export e s) = Some s' ->
+    feeds s' = feeds s /\ forall f, In f (feeds s) -> values_of s' (fst f) = values_of s (fst f).
+Proof. exact oracle_values_preserved_lemma. Qed.
+Print Assumptions oracle_queries_preserved.
+
+Example oracle_nonvacuous :
+  invb wit_s = true /\ import true wit_env (export wit_env wit_s) <> None
+  /\ values_of wit_s 0 = [(4, 1700000020); (3, 1700000010)].
+Proof. repeat split; vm_compute; try reflexivity; discriminate. Qed.
 End OracleC12.
 
 (** ** service.  Requests, responses, request queues, earned fees and volumes are documented as
@@ -436,6 +451,17 @@ Theorem htlc_queries_preserved :
     exists s', import true (export s) = Some s' /\ queries s' = queries s /\ queue s' = queue_of (htlcs s').
 Proof. exact htlc_queries_preserved_lemma. Qed.
 Print Assumptions htlc_queries_preserved.
+
+(** after PrepForZeroHeightGenesis at block height [height] the state is again a reachable-looking one (so the
+    four theorems apply to it), provided no open contract has expired before [height]; the Go function
+    leaves the expiration queue stale, which InitGenesis repairs (see [htlc_queries_preserved]) *)
+Theorem htlc_prep_keeps_invariant :
+  forall (height : Z) (s : state),
+    invb true s = true -> 0 < height ->
+    forallb (fun e => negb (is_open (snd e)) || ((height <=? h_expiry (snd e)) && (h_expiry (snd e) <? two64))) (htlcs s) = true ->
+    invb true (prep height s) = true.
+Proof. exact htlc_prep_inv_lemma. Qed.
+Print Assumptions htlc_prep_keeps_invariant.
 
 (** REMARK, not a C12 violation: ValidateGenesis does not compare the supplies with the open transfers *)
 Theorem htlc_handmade_genesis_can_panic : exists g : genesis, validate true g = true /\ import true g = None.
